@@ -120,18 +120,19 @@ Proof.
 Qed.
 
 (* ---------------------------------------------------------------- ext_grid zero-sequence current *)
-Lemma eg_current_partial : forall y0 y2 v i, G11_eg y0 y2 = true -> eg_seq_current_reported y0 y2 v i ==c i.
+Lemma eg_current_full : forall y0 v i, eg_zero_seq_current y0 v i ==c i.
+Proof. intros. unfold eg_zero_seq_current, eg_seq_current_reported. csimp. split; ring. Qed.
+Lemma eg_current_old_partial : forall y0 y2 v i, G11_eg y0 y2 = true -> eg_zero_seq_current_old y0 y2 v i ==c i.
 Proof.
   intros y0 y2 v i G. unfold G11_eg in G. apply andb_prop in G. destruct G as [A B].
-  apply qeqb_eq in A. apply qeqb_eq in B. unfold eg_seq_current_reported. csimp. rewrite A, B. split; ring.
+  apply qeqb_eq in A. apply qeqb_eq in B. unfold eg_zero_seq_current_old, eg_seq_current_reported. csimp. rewrite A, B. split; ring.
 Qed.
-(* the zero-sequence network is passive at the reference bus: y0*v + i_lines = 0 *)
-Lemma eg_current_faithful : forall y0 y2 v i, i ==c Copp (Cmul y0 v) ->
-  eg_seq_current_reported y0 y2 v i ==c Copp (Cmul y2 v).
+Lemma eg_current_old_faithful : forall y0 y2 v i, i ==c Copp (Cmul y0 v) ->
+  eg_zero_seq_current_old y0 y2 v i ==c Copp (Cmul y2 v).
 Proof.
-  intros y0 y2 v i [A B]. unfold eg_seq_current_reported. csimp. rewrite A, B. split; ring.
+  intros y0 y2 v i [A B]. unfold eg_zero_seq_current_old, eg_seq_current_reported. csimp. rewrite A, B. split; ring.
 Qed.
-Lemma eg_current_refuted : exists y0 y2 v i, i ==c Copp (Cmul y0 v) /\ ~ eg_seq_current_reported y0 y2 v i ==c i.
+Lemma eg_current_old_refuted : exists y0 y2 v i, i ==c Copp (Cmul y0 v) /\ ~ eg_zero_seq_current_old y0 y2 v i ==c i.
 Proof.
   exists (mkC 1 0), (mkC 2 0), (mkC 1 0), (mkC (-1) 0). split.
   - vm_compute. split; reflexivity.
